@@ -70,7 +70,9 @@ func (app *App) checkRecovery() {
 	// Old master may be stuck on 'Waiting for semi-sync'
 	oldMasterStuck, err := localNode.IsWaitingSemiSyncAck()
 	if err != nil {
+		// unknown is not "none": the mark must not be cleared over commits that may still be stuck
 		app.logger.Error().Err(err).Msgf("recovery: host %s failed to get stuck processes", localNode.Host())
+		return
 	}
 	if oldMasterStuck {
 		app.logger.Error().Msgf("recovery: old master %s has stuck processes", localNode.Host())
